@@ -56,6 +56,16 @@ def gen_world(rng):
         if tn and rr < 0.5:
             ret = rng.choice(tn) if rng.random() < 0.5 else t
         add(sub, first, nparams, ret)
+    # a constructor-like function of one class that returns another class which is neither it nor one of its ancestors
+    # (a sibling, a descendant), and one that returns an ancestor
+    classes = [(n, ps) for n, k, r, ps in types if k == 'TClass']
+    if len(classes) >= 2 and rng.random() < 0.7:
+        (a, aps) = rng.choice(classes)
+        others = [n for n, ps in classes if n != a and n not in aps]
+        if others:
+            add(prefixes[a] + '_new_caption', None, 0, rng.choice(others))
+        if aps:
+            add(prefixes[a] + '_new_from_parent', None, 0, rng.choice(aps))
     # functions whose first parameter is a type of an included namespace and whose name carries that type's prefix
     for sub, ft in (('object_describe', 'GObject'), ('cancellable_poke', 'GCancellable'), ('initially_unowned_sink', 'GInitiallyUnowned')):
         if rng.random() < 0.5:
